@@ -4,9 +4,11 @@
 # reverts; checks the demo passes without the patch. Prints a summary line. Never leaves /repo dirty.
 set -u
 SD="$1"; CRATE="$2"; shift 2
-cd /repo || exit 2
+# SEED_REPO / SEED_VERIF: run against a lane (git worktree of /repo + copy of /verif, see tools/seedlane.sh) instead of /repo and /verif
+REPO="${SEED_REPO:-/repo}"; VERIF="${SEED_VERIF:-/verif}"
+cd "$REPO" || exit 2
 if [ -n "$(git status --porcelain --untracked-files=no)" ]; then echo "repo dirty, abort"; exit 2; fi
-cleanup() { git -C /repo checkout -q -- . ; rm -rf /repo/crates/$CRATE/tests/seeded_demo.rs; rmdir /repo/crates/$CRATE/tests 2>/dev/null; }
+cleanup() { git -C "$REPO" checkout -q -- . ; rm -rf "$REPO"/crates/$CRATE/tests/seeded_demo.rs; rmdir "$REPO"/crates/$CRATE/tests 2>/dev/null; }
 trap cleanup EXIT
 git apply "$SD/patch.diff" || { echo "patch does not apply"; exit 2; }
 cargo test --workspace --no-fail-fast --offline >/tmp/seed_suite.log 2>&1 < /dev/null
@@ -16,12 +18,12 @@ mkdir -p crates/$CRATE/tests; cp "$SD/demo.rs" crates/$CRATE/tests/seeded_demo.r
 cargo test --offline -p $CRATE ${SEED_FEATURES:-} --test seeded_demo >/tmp/seed_demo_with.log 2>&1 < /dev/null
 DEMO_FAIL_WITH=$(grep -E "^test result" /tmp/seed_demo_with.log | head -1)
 RESULTS=""
-EVSAVE="$(mktemp -d)"; cp -a /verif/evidence/. "$EVSAVE"/   # seeded trials must not leave their evidence behind
+EVSAVE="$(mktemp -d)"; cp -a "$VERIF"/evidence/. "$EVSAVE"/   # seeded trials must not leave their evidence behind
 for P in "$@"; do
-  ( cd /verif && ./check $P --tier quick > /tmp/seed_check_$P.log 2>&1 ); RC=$?
+  ( cd "$VERIF" && ./check $P --tier quick > /tmp/seed_check_$P.log 2>&1 ); RC=$?
   RESULTS="$RESULTS $P=exit$RC"
 done
-cp -a "$EVSAVE"/. /verif/evidence/; rm -rf "$EVSAVE"
+cp -a "$EVSAVE"/. "$VERIF"/evidence/; rm -rf "$EVSAVE"
 git checkout -q -- .
 mkdir -p crates/$CRATE/tests; cp "$SD/demo.rs" crates/$CRATE/tests/seeded_demo.rs
 cargo test --offline -p $CRATE ${SEED_FEATURES:-} --test seeded_demo >/tmp/seed_demo_without.log 2>&1 < /dev/null
